@@ -66,6 +66,13 @@ class Ctx:
 
     def word(self) -> str:
         self.n += 1
+        r = self.rng.random()
+        if r < 0.08:
+            return f"\u00e9d{self.n}\u00e9"  # non-ASCII at both ends of the word
+        if r < 0.12:
+            return f"ed{self.n}\x0cff"  # form feed: a line break for str.splitlines(), not for the format
+        if r < 0.16:
+            return f"ed{self.n}\u2028ls"
         return f"ed{self.n}"
 
     def fresh_zid(self, day) -> str:
